@@ -53,6 +53,10 @@ def generate(r):
         lines.append("export fn bump_%s() { hidden_%s += 1; hidden_%s }" % (ident[m], ident[m], ident[m]))
         lines.append("export let val_%s = %d;" % (ident[m], i + 10))
         lines.append("export class K_%s { init() { self.tag = ['%s']; } id() { %d } }" % (ident[m], m, i + 20))
+        # an exported variable that the module itself reassigns later, and an export whose value is nil
+        lines.append("export let pub_%s = 0;" % ident[m])
+        lines.append("export fn incpub_%s() { pub_%s = pub_%s + 1; pub_%s }" % ((ident[m],) * 4))
+        lines.append("export let none_%s = nil;" % ident[m])
         if fibers_in_modules and r.random() < 0.5:
             # (a synchronous channel parks the module's fiber in the blocked state, a buffered one puts it to sleep)
             lines.append("let mc_%s = chan(%s); fn mw_%s(c) { c <- %d; } launch mw_%s(mc_%s); print('%s fiber', <- mc_%s);" % (
@@ -82,6 +86,7 @@ def generate(r):
                  "launch pacer(pace);", "launch ticker(tick, pace, %d);" % pace]
     ran = []
     counters = collections.Counter()
+    published = collections.Counter()     # current value of pub_<module>
     fiber_lines = {}
     for m in mods:
         fiber_lines[m] = any("fiber" in line and "print('%s fiber'" % m in line for line in files["/sim/%s.lay" % m.replace(".", "/")].splitlines())
@@ -126,12 +131,30 @@ def generate(r):
                     alias, ident[m], alias, ident[m], alias, ident[m], alias, ident[m]))
                 counters[m] += 1
                 expect.append("%d %d %d ['%s']" % (mods.index(m) + 10, counters[m], mods.index(m) + 20, m))
+                if r.random() < 0.6:
+                    # every import statement yields its own module object holding the exported values of that moment:
+                    # later reassignments inside the module and writes of other importers do not show through it
+                    snapshot = published[m]
+                    bumps = r.randint(0, 2)
+                    main.append("print(%s.pub_%s%s, %s.pub_%s, %s.none_%s);" % (
+                        alias, ident[m], "".join(", %s.incpub_%s()" % (alias, ident[m]) for _ in range(bumps)), alias, ident[m],
+                        alias, ident[m]))
+                    line = [str(snapshot)]
+                    for _ in range(bumps):
+                        published[m] += 1
+                        line.append(str(published[m]))
+                    line += [str(snapshot), "nil"]
+                    expect.append(" ".join(line))
+                    if r.random() < 0.4:
+                        main.append("%s.pub_%s = %d; print(%s.pub_%s);" % (alias, ident[m], 900 + j, alias, ident[m]))
+                        expect.append(str(900 + j))
             elif form in ("sym", "symas"):
-                main.append("import self.%s:{val_%s as v%d, bump_%s as b%d, K_%s as K%d};" % (m, ident[m], j, ident[m], j, ident[m], j))
+                main.append("import self.%s:{val_%s as v%d, bump_%s as b%d, K_%s as K%d, pub_%s as pubv%d, none_%s as nonev%d};" % (
+                    m, ident[m], j, ident[m], j, ident[m], j, ident[m], j, ident[m], j))
                 run_mod(m)
-                main.append("print(v%d, b%d(), K%d().id());" % (j, j, j))
+                main.append("print(v%d, b%d(), K%d().id(), pubv%d, nonev%d);" % (j, j, j, j, j))
                 counters[m] += 1
-                expect.append("%d %d %d" % (mods.index(m) + 10, counters[m], mods.index(m) + 20))
+                expect.append("%d %d %d %d nil" % (mods.index(m) + 10, counters[m], mods.index(m) + 20, published[m]))
             elif form == "missing":
                 main.append("import self.nope%d;" % j)
                 fail = "ImportError"
